@@ -1799,3 +1799,751 @@ func ruleFenceVerbatim(r *Run) {
 	r.Min("fence_writing_functions", n, 1)
 	r.Count("markdown_escapers", len(escapers))
 }
+
+// ---------------------------------------------------------------------------
+// R-DIV-GUARD (C06): nothing on the Open path divides by a number taken from the file.  Every
+// integer division or remainder in a function reachable from openFromZipReader has a constant
+// non-zero divisor, or a divisor that the dominating comparisons (or the construction of the
+// value: a constant-or-guarded phi, len()+k, max(…, k)) keep away from zero.
+// ---------------------------------------------------------------------------
+
+func ruleDivGuard(r *Run) {
+	p := r.P
+	root := r.mustFunc(pkgDoc, "openFromZipReader")
+	if root == nil {
+		return
+	}
+	n, nFuncs := 0, 0
+	for _, fn := range sortedFuncs(p.cgReach(root)) {
+		if !p.inModule(fn) {
+			continue
+		}
+		nFuncs++
+		idx := 0
+		allInstrs(fn, func(in ssa.Instruction) {
+			bo, ok := in.(*ssa.BinOp)
+			if !ok || (bo.Op != token.QUO && bo.Op != token.REM) {
+				return
+			}
+			b, ok := bo.Type().Underlying().(*types.Basic)
+			if !ok || b.Info()&types.IsInteger == 0 {
+				return
+			}
+			n++
+			idx++
+			okc := nonZeroAt(bo.Y, bo.Block(), 0)
+			r.Check("div-guard", fmt.Sprintf("%s#%d", shortName(topLevel(fn)), idx), bo.Pos(), okc,
+				fmt.Sprintf("integer %s in %s on the Open path: %s", map[token.Token]string{token.QUO: "division", token.REM: "remainder"}[bo.Op], shortName(topLevel(fn)),
+					map[bool]string{true: "the divisor cannot be zero here", false: "nothing keeps the divisor away from zero (it can come out of the file: an attribute value of 0) — Open panics with a division by zero instead of returning an error or a document"}[okc]))
+		})
+	}
+	r.Count("integer_divisions_on_open_path", n)
+	r.Min("module_functions_on_open_path", nFuncs, 30)
+}
+
+// nonZeroAt: v is known to be non-zero in block at.
+func nonZeroAt(v ssa.Value, at *ssa.BasicBlock, depth int) bool {
+	if depth > 4 {
+		return false
+	}
+	switch x := v.(type) {
+	case *ssa.Const:
+		c, ok := constInt(x)
+		return ok && c != 0
+	case *ssa.Convert:
+		if nonZeroAt(x.X, at, depth+1) {
+			return true
+		}
+	case *ssa.ChangeType:
+		if nonZeroAt(x.X, at, depth+1) {
+			return true
+		}
+	case *ssa.Phi:
+		all := len(x.Edges) > 0
+		for i, e := range x.Edges {
+			if !nonZeroAt(e, x.Block().Preds[i], depth+1) {
+				all = false
+			}
+		}
+		if all {
+			return true
+		}
+	case *ssa.BinOp:
+		// len(x)+k, n+k with k>0 and n>=0 is not decidable here except for len
+		if x.Op == token.ADD {
+			if c, ok := constInt(x.Y); ok && c > 0 {
+				if call, ok := x.X.(*ssa.Call); ok {
+					if bi, ok := call.Call.Value.(*ssa.Builtin); ok && (bi.Name() == "len" || bi.Name() == "cap") {
+						return true
+					}
+				}
+			}
+		}
+	case *ssa.Call:
+		if bi, ok := x.Call.Value.(*ssa.Builtin); ok && bi.Name() == "max" {
+			for _, a := range x.Call.Args {
+				if c, ok := constInt(a); ok && c > 0 {
+					return true
+				}
+			}
+		}
+	}
+	// dominating comparisons of v itself
+	fn := at.Parent()
+	for _, b := range fn.Blocks {
+		if len(b.Instrs) == 0 || len(b.Succs) != 2 || b.Succs[0] == b.Succs[1] {
+			continue
+		}
+		iff, ok := b.Instrs[len(b.Instrs)-1].(*ssa.If)
+		if !ok {
+			continue
+		}
+		cmp, ok := iff.Cond.(*ssa.BinOp)
+		if !ok {
+			continue
+		}
+		var c int64
+		var op token.Token
+		if cmp.X == v {
+			k, ok := constInt(cmp.Y)
+			if !ok {
+				continue
+			}
+			c, op = k, cmp.Op
+		} else if cmp.Y == v {
+			k, ok := constInt(cmp.X)
+			if !ok {
+				continue
+			}
+			c = k
+			switch cmp.Op { // k op v  ⇒  v op' k
+			case token.LSS:
+				op = token.GTR
+			case token.LEQ:
+				op = token.GEQ
+			case token.GTR:
+				op = token.LSS
+			case token.GEQ:
+				op = token.LEQ
+			default:
+				op = cmp.Op
+			}
+		} else {
+			continue
+		}
+		// on which successor is v != 0 implied?
+		var good *ssa.BasicBlock
+		switch op {
+		case token.EQL:
+			if c == 0 {
+				good = b.Succs[1]
+			} else {
+				good = b.Succs[0]
+			}
+		case token.NEQ:
+			if c == 0 {
+				good = b.Succs[0]
+			}
+		case token.GTR:
+			if c >= 0 {
+				good = b.Succs[0]
+			}
+			if c < 0 { // v <= c < 0 on the false edge
+				good = b.Succs[1]
+			}
+		case token.GEQ:
+			if c >= 1 {
+				good = b.Succs[0]
+			}
+			if c <= 0 { // v < c <= 0
+				good = b.Succs[1]
+			}
+		case token.LSS:
+			if c <= 0 {
+				good = b.Succs[0]
+			}
+			if c >= 1 { // v >= c >= 1
+				good = b.Succs[1]
+			}
+		case token.LEQ:
+			if c < 0 {
+				good = b.Succs[0]
+			}
+			if c >= 0 { // v > c >= 0
+				good = b.Succs[1]
+			}
+		}
+		if good != nil && len(good.Preds) == 1 && (good == at || good.Dominates(at)) {
+			return true
+		}
+	}
+	return false
+}
+
+// ---------------------------------------------------------------------------
+// R-SHARED-WRITER-SYNC (C07): the process-wide logger is used by every document.  A struct type
+// of which a package-level instance exists and which holds an io.Writer must not write to that
+// writer directly from its methods (w.Write, fmt.Fprint*, io.WriteString) unless the method holds a
+// mutex of the same object around the write; handing the line to a *log.Logger (which serialises
+// its writes) is the accepted form.  Otherwise goroutines working on DIFFERENT documents race
+// inside the writer the application installed.
+// ---------------------------------------------------------------------------
+
+func ruleSharedWriterSync(r *Run) {
+	p := r.P
+	// struct types with a package-level instance
+	shared := map[*types.Named]string{}
+	for _, pk := range []string{pkgDoc, pkgMd, "github.com/zerx-lab/wordZero/pkg/style"} {
+		sp := p.SSAPkg[pk]
+		if sp == nil {
+			continue
+		}
+		for name, m := range sp.Members {
+			g, ok := m.(*ssa.Global)
+			if !ok {
+				continue
+			}
+			t := g.Type().(*types.Pointer).Elem()
+			if pt, ok := t.(*types.Pointer); ok {
+				t = pt.Elem()
+			}
+			if nt, ok := t.(*types.Named); ok {
+				if _, isStruct := nt.Underlying().(*types.Struct); isStruct && nt.Obj().Pkg() != nil && nt.Obj().Pkg().Path() == pk {
+					shared[nt] = name
+				}
+			}
+		}
+	}
+	isWriter := func(t types.Type) bool {
+		nt, ok := t.(*types.Named)
+		return ok && nt.Obj().Pkg() != nil && nt.Obj().Pkg().Path() == "io" && nt.Obj().Name() == "Writer"
+	}
+	n := 0
+	for _, fn := range p.ModFuncs() {
+		recv := fn.Signature.Recv()
+		if recv == nil || fn.Parent() != nil {
+			continue
+		}
+		rt := recv.Type()
+		if pt, ok := rt.(*types.Pointer); ok {
+			rt = pt.Elem()
+		}
+		nt, ok := rt.(*types.Named)
+		if !ok || shared[nt] == "" {
+			continue
+		}
+		allInstrs(fn, func(in ssa.Instruction) {
+			c, ok := in.(*ssa.Call)
+			if !ok {
+				return
+			}
+			var w ssa.Value
+			switch {
+			case c.Call.IsInvoke() && c.Call.Method.Name() == "Write" && isWriter(c.Call.Value.Type()):
+				w = c.Call.Value
+			case calleeName(c) == "fmt.Fprintf" || calleeName(c) == "fmt.Fprintln" || calleeName(c) == "fmt.Fprint" || calleeName(c) == "io.WriteString":
+				w = c.Call.Args[0]
+			default:
+				return
+			}
+			// the writer is a field of the receiver
+			ld, ok := stripConv(w).(*ssa.UnOp)
+			if !ok || ld.Op != token.MUL {
+				return
+			}
+			fv, base := fieldOfAddr(ld.X)
+			if fv == nil || !isWriter(fv.Type()) || stripLoads(base) != ssa.Value(fn.Params[0]) {
+				return
+			}
+			n++
+			// a Lock()/RLock() on a field of the receiver dominates the write
+			locked := false
+			allInstrs(fn, func(in2 ssa.Instruction) {
+				c2, ok := in2.(*ssa.Call)
+				if !ok {
+					return
+				}
+				cn := calleeName(c2)
+				if cn != "(*sync.Mutex).Lock" && cn != "(*sync.RWMutex).Lock" {
+					return
+				}
+				_, b2 := fieldOfAddr(c2.Call.Args[0])
+				if b2 == nil || stripLoads(b2) != ssa.Value(fn.Params[0]) {
+					return
+				}
+				if c2.Block() == c.Block() && instrIndex(c2) < instrIndex(c) || c2.Block() != c.Block() && c2.Block().Dominates(c.Block()) {
+					locked = true
+				}
+			})
+			r.Check("shared-writer-sync", shortName(fn)+":"+fv.Name(), c.Pos(), locked,
+				fmt.Sprintf("%s writes to the writer held in %s.%s, and a process-wide instance of %s exists (%s): %s", shortName(fn), nt.Obj().Name(), fv.Name(), nt.Obj().Name(), shared[nt],
+					map[bool]string{true: "the write is made under the object's mutex", false: "nothing serialises the write — goroutines that work on different documents write to the installed writer at the same time (a data race inside it; lines are lost or interleaved)"}[locked]))
+		})
+	}
+	r.Count("direct_writes_to_a_shared_writer", n)
+	r.Min("struct_types_with_a_process_wide_instance", len(shared), 1)
+}
+
+// ---------------------------------------------------------------------------
+// R-AXIS-DIM (C10): the displayed extent follows the sizing rules.  A dimensional analysis over the
+// two picture axes: every value computed from widths carries the unit w, from heights the unit h;
+// products add exponents, quotients subtract them, sums and alternatives (phi, several stores to
+// one variable) need equal units, constants and conversions are neutral.  What is stored as a
+// horizontal extent (a field Cx) must have unit w¹h⁰ and a vertical extent (Cy) unit w⁰h¹ on every
+// path where the unit is determined.  "height × (h/w)" for a derived width has unit w⁻¹h² — the
+// swapped-ratio mistake — and is reported; values whose unit is not determined are not.
+// ---------------------------------------------------------------------------
+
+type axisDim struct {
+	w, h    int
+	known   bool // a definite unit (including the neutral w⁰h⁰ of a pure number when neutral is set)
+	neutral bool // a constant: combines with anything
+	clash   string
+}
+
+func (d axisDim) String() string {
+	if d.clash != "" {
+		return "inconsistent (" + d.clash + ")"
+	}
+	if !d.known {
+		return "undetermined"
+	}
+	return fmt.Sprintf("w^%d·h^%d", d.w, d.h)
+}
+
+type axisEval struct {
+	p     *Program
+	env   map[*ssa.Parameter]axisDim
+	depth int
+	up    int // how many times a free parameter has been resolved at call sites
+	seen  map[ssa.Value]bool
+}
+
+func axisMeet(a, b axisDim, what string) axisDim {
+	if a.clash != "" {
+		return a
+	}
+	if b.clash != "" {
+		return b
+	}
+	if a.neutral || !a.known {
+		if a.neutral && !b.known {
+			return a
+		}
+		return b
+	}
+	if b.neutral || !b.known {
+		return a
+	}
+	if a.w != b.w || a.h != b.h {
+		return axisDim{clash: fmt.Sprintf("%s of %s and %s", what, a, b)}
+	}
+	return a
+}
+
+func (e *axisEval) eval(v ssa.Value) axisDim {
+	if e.depth > 40 || e.seen[v] {
+		return axisDim{}
+	}
+	e.seen[v] = true
+	defer delete(e.seen, v)
+	e.depth++
+	defer func() { e.depth-- }()
+	fieldDim := func(fv *types.Var) axisDim {
+		if fv == nil {
+			return axisDim{}
+		}
+		o := fieldOwner(e.p, fv)
+		if o == nil {
+			return axisDim{}
+		}
+		switch o.Obj().Name() {
+		case "ImageInfo", "ImageSize", "CellImageConfig":
+			switch fv.Name() {
+			case "Width":
+				return axisDim{w: 1, known: true}
+			case "Height":
+				return axisDim{h: 1, known: true}
+			}
+		}
+		return axisDim{}
+	}
+	switch x := v.(type) {
+	case *ssa.Const:
+		return axisDim{known: true, neutral: true}
+	case *ssa.Convert:
+		return e.eval(x.X)
+	case *ssa.ChangeType:
+		return e.eval(x.X)
+	case *ssa.Parameter:
+		if d, ok := e.env[x]; ok {
+			return d
+		}
+		// a free parameter of an unexported function: what do the call sites hand in?
+		if fn := x.Parent(); fn != nil && e.up < 3 && (fn.Object() == nil || !fn.Object().Exported()) {
+			pi := paramIndex(fn, x)
+			out := axisDim{}
+			first := true
+			for _, cs := range staticCallSites(e.p, fn) {
+				if pi < 0 || pi >= len(cs.Common().Args) {
+					continue
+				}
+				sub := &axisEval{p: e.p, env: map[*ssa.Parameter]axisDim{}, seen: map[ssa.Value]bool{}, up: e.up + 1}
+				d := sub.eval(cs.Common().Args[pi])
+				if first {
+					out, first = d, false
+				} else {
+					out = axisMeet(out, d, "alternatives")
+				}
+			}
+			return out
+		}
+		return axisDim{}
+	case *ssa.MakeInterface:
+		return e.eval(x.X)
+	case *ssa.BinOp:
+		a, b := e.eval(x.X), e.eval(x.Y)
+		if a.clash != "" {
+			return a
+		}
+		if b.clash != "" {
+			return b
+		}
+		switch x.Op {
+		case token.MUL, token.QUO:
+			if !a.known || !b.known {
+				// a number of unknown unit times a constant keeps being unknown; unknown × known is unknown
+				if a.known && a.neutral {
+					return b
+				}
+				if b.known && b.neutral {
+					return a
+				}
+				return axisDim{}
+			}
+			if x.Op == token.MUL {
+				return axisDim{w: a.w + b.w, h: a.h + b.h, known: true, neutral: a.neutral && b.neutral}
+			}
+			return axisDim{w: a.w - b.w, h: a.h - b.h, known: true, neutral: a.neutral && b.neutral}
+		case token.ADD, token.SUB:
+			return axisMeet(a, b, "sum")
+		}
+		return axisDim{}
+	case *ssa.Phi:
+		out := axisDim{}
+		first := true
+		for _, ed := range x.Edges {
+			d := e.eval(ed)
+			if first {
+				out, first = d, false
+				continue
+			}
+			out = axisMeet(out, d, "alternatives")
+		}
+		return out
+	case *ssa.Field:
+		fv, _ := fieldOfVal(x)
+		return fieldDim(fv)
+	case *ssa.UnOp:
+		if x.Op == token.SUB {
+			return e.eval(x.X)
+		}
+		if x.Op != token.MUL {
+			return axisDim{}
+		}
+		if fa, ok := x.X.(*ssa.FieldAddr); ok {
+			fv, _ := fieldOfAddr(fa)
+			return fieldDim(fv)
+		}
+		if al, ok := x.X.(*ssa.Alloc); ok && al.Referrers() != nil {
+			out := axisDim{}
+			first := true
+			for _, u := range *al.Referrers() {
+				if st, ok := u.(*ssa.Store); ok && st.Addr == ssa.Value(al) {
+					d := e.eval(st.Val)
+					if first {
+						out, first = d, false
+						continue
+					}
+					out = axisMeet(out, d, "alternatives")
+				}
+			}
+			return out
+		}
+	case *ssa.Extract:
+		if c, ok := x.Tuple.(*ssa.Call); ok {
+			return e.call(c, x.Index)
+		}
+	case *ssa.Call:
+		if bi, ok := x.Call.Value.(*ssa.Builtin); ok && (bi.Name() == "min" || bi.Name() == "max") {
+			out := axisDim{}
+			for i, a := range x.Call.Args {
+				d := e.eval(a)
+				if i == 0 {
+					out = d
+				} else {
+					out = axisMeet(out, d, "alternatives")
+				}
+			}
+			return out
+		}
+		switch calleeName(x) {
+		case "math.Round", "math.Floor", "math.Ceil", "math.Trunc", "math.Abs", "strconv.Itoa", "strconv.FormatInt":
+			return e.eval(x.Call.Args[0])
+		case "fmt.Sprintf", "fmt.Sprint":
+			// a number printed as the attribute text: exactly one operand
+			args := varargElems(x.Call.Args[len(x.Call.Args)-1])
+			if len(args) == 1 {
+				return e.eval(args[0])
+			}
+			return axisDim{}
+		}
+		return e.call(x, 0)
+	}
+	return axisDim{}
+}
+
+func (e *axisEval) call(c *ssa.Call, idx int) axisDim {
+	cal := staticCallee(c)
+	if cal == nil || !e.p.inModule(cal) || len(cal.Blocks) == 0 || e.depth > 30 {
+		return axisDim{}
+	}
+	env := map[*ssa.Parameter]axisDim{}
+	for i, par := range cal.Params {
+		if i < len(c.Call.Args) {
+			env[par] = e.eval(c.Call.Args[i])
+		}
+	}
+	sub := &axisEval{p: e.p, env: env, depth: e.depth + 1, seen: map[ssa.Value]bool{}}
+	out := axisDim{}
+	first := true
+	for _, ret := range returnsOf(cal) {
+		if idx >= len(ret.Results) {
+			continue
+		}
+		d := sub.eval(ret.Results[idx])
+		if first {
+			out, first = d, false
+			continue
+		}
+		out = axisMeet(out, d, "alternatives")
+	}
+	return out
+}
+
+func ruleAxisDim(r *Run) {
+	p := r.P
+	n, determined := 0, 0
+	for _, fn := range p.ModFuncs() {
+		if fn.Pkg == nil || fn.Pkg.Pkg.Path() != pkgDoc {
+			continue
+		}
+		idx := map[string]int{}
+		allInstrs(fn, func(in ssa.Instruction) {
+			st, ok := in.(*ssa.Store)
+			if !ok {
+				return
+			}
+			fv, _ := fieldOfAddr(st.Addr)
+			if fv == nil || (fv.Name() != "Cx" && fv.Name() != "Cy") {
+				return
+			}
+			if _, isC := st.Val.(*ssa.Const); isC {
+				return
+			}
+			n++
+			ev := &axisEval{p: p, env: map[*ssa.Parameter]axisDim{}, seen: map[ssa.Value]bool{}}
+			d := ev.eval(st.Val)
+			want := axisDim{w: 1, known: true}
+			if fv.Name() == "Cy" {
+				want = axisDim{h: 1, known: true}
+			}
+			okc := true
+			if d.clash != "" {
+				okc = false
+			} else if d.known && !d.neutral {
+				determined++
+				okc = d.w == want.w && d.h == want.h
+			}
+			o := fieldOwner(p, fv)
+			on := "?"
+			if o != nil {
+				on = o.Obj().Name()
+			}
+			idx[on+"."+fv.Name()]++
+			r.Check("axis-dim", fmt.Sprintf("%s:%s.%s#%d", shortName(topLevel(fn)), on, fv.Name(), idx[on+"."+fv.Name()]), st.Pos(), okc,
+				fmt.Sprintf("%s stores a %s extent (%s.%s); in picture-axis units the stored value is %s, expected %s%s", shortName(topLevel(fn)),
+					map[string]string{"Cx": "horizontal", "Cy": "vertical"}[fv.Name()], on, fv.Name(), d, want,
+					map[bool]string{true: "", false: " — a derived dimension is computed with the aspect ratio the wrong way round (or from the wrong axis): for a non-square picture the displayed extent does not follow the pixel aspect ratio"}[okc]))
+		})
+	}
+	r.Min("extent_stores", n, 2)
+	r.Min("extent_stores_with_determined_unit", determined, 2)
+}
+
+// ---------------------------------------------------------------------------
+// R-CHILD-FILTER (C19): a block renderer that takes over the children of a node (it returns
+// WalkSkipChildren, so the walker will not visit them) must pass EVERY child on.  goldmark fixes
+// the child kind only for a few containers (List → ListItem, Table → header/rows, row → cells);
+// the children of a list item, a block quote or the document are arbitrary blocks.  In a loop over
+// the children of such a node that hands children to module functions only behind a type test,
+// an iteration whose child fails the test reaches the next child without anything having looked at
+// it: a paragraph after a nested list, the second paragraph of a loose item, … is lost.
+// ---------------------------------------------------------------------------
+
+func ruleChildFilter(r *Run) {
+	p := r.P
+	hetero := map[string]bool{"ListItem": true, "Blockquote": true, "Document": true}
+	n := 0
+	for _, fn := range p.ModFuncs() {
+		if fn.Pkg == nil || fn.Pkg.Pkg.Path() != pkgMd {
+			continue
+		}
+		for _, l := range naturalLoops(fn) {
+			// the loop variable: a phi in the header fed by x.NextSibling() from inside the loop
+			var child *ssa.Phi
+			for _, in := range l.Header.Instrs {
+				ph, ok := in.(*ssa.Phi)
+				if !ok {
+					continue
+				}
+				for _, e := range ph.Edges {
+					if c, ok := e.(*ssa.Call); ok && c.Call.IsInvoke() && c.Call.Method.Name() == "NextSibling" && l.Body[c.Block()] {
+						child = ph
+					}
+				}
+			}
+			if child == nil {
+				continue
+			}
+			// the node whose children are walked
+			var base ssa.Value
+			for _, e := range child.Edges {
+				c, ok := e.(*ssa.Call)
+				if !ok || !c.Call.IsInvoke() || l.Body[c.Block()] {
+					continue
+				}
+				v := ssa.Value(c)
+				for i := 0; i < 6; i++ {
+					cc, ok := v.(*ssa.Call)
+					if !ok {
+						break
+					}
+					if cc.Call.IsInvoke() {
+						if cc.Call.Method.Name() != "FirstChild" && cc.Call.Method.Name() != "NextSibling" {
+							break
+						}
+						v = cc.Call.Value
+						continue
+					}
+					// node.FirstChild() on a concrete node type: a static call of the embedded
+					// BaseNode's method with the address of the embedded field
+					cn := calleeName(cc)
+					if (strings.HasSuffix(cn, ").FirstChild") || strings.HasSuffix(cn, ").NextSibling")) && len(cc.Call.Args) > 0 {
+						if _, root := addrChain(cc.Call.Args[0]); root != nil {
+							v = stripLoads(root)
+							continue
+						}
+					}
+					break
+				}
+				base = v
+			}
+			if base == nil {
+				continue
+			}
+			for i := 0; i < 4; i++ {
+				switch x := base.(type) {
+				case *ssa.MakeInterface:
+					base = x.X
+					continue
+				case *ssa.ChangeInterface:
+					base = x.X
+					continue
+				}
+				break
+			}
+			bt := base.Type()
+			if pt, ok := bt.(*types.Pointer); ok {
+				bt = pt.Elem()
+			}
+			nt, ok := bt.(*types.Named)
+			if !ok || nt.Obj().Pkg() == nil || !strings.Contains(nt.Obj().Pkg().Path(), "goldmark") || !hetero[nt.Obj().Name()] {
+				continue
+			}
+			// values derived from the child: the child itself and its type assertions
+			derived := map[ssa.Value]bool{child: true}
+			filtered := false
+			changed := true
+			for changed {
+				changed = false
+				for b := range l.Body {
+					for _, in := range b.Instrs {
+						switch x := in.(type) {
+						case *ssa.TypeAssert:
+							if derived[x.X] && !derived[x] {
+								derived[x], changed = true, true
+							}
+						case *ssa.Extract:
+							if derived[x.Tuple] && x.Index == 0 && !derived[x] {
+								derived[x], changed = true, true
+							}
+						case *ssa.MakeInterface:
+							if derived[x.X] && !derived[x] {
+								derived[x], changed = true, true
+							}
+						case *ssa.ChangeInterface:
+							if derived[x.X] && !derived[x] {
+								derived[x], changed = true, true
+							}
+						}
+					}
+				}
+			}
+			cut := map[*ssa.BasicBlock]bool{}
+			var first *ssa.Call
+			for b := range l.Body {
+				for _, in := range b.Instrs {
+					c, ok := in.(*ssa.Call)
+					if !ok || c.Call.IsInvoke() {
+						continue
+					}
+					cal := staticCallee(c)
+					if cal == nil || !p.inModule(cal) {
+						continue
+					}
+					for _, a := range c.Call.Args {
+						if derived[a] {
+							cut[b] = true
+							if first == nil || c.Pos() < first.Pos() {
+								first = c
+							}
+							if a != ssa.Value(child) {
+								if _, isIface := a.Type().Underlying().(*types.Interface); !isIface {
+									filtered = true
+								}
+							}
+						}
+					}
+				}
+			}
+			if len(cut) == 0 || !filtered {
+				continue
+			}
+			n++
+			iff, ok := l.Header.Instrs[len(l.Header.Instrs)-1].(*ssa.If)
+			if !ok {
+				continue
+			}
+			body := iff.Block().Succs[0]
+			if !l.Body[body] {
+				body = iff.Block().Succs[1]
+			}
+			okAll := cut[body] || !reachableBlocks(body, cut)[l.Header]
+			r.Check("child-filter", shortName(topLevel(fn))+":"+nt.Obj().Name(), first.Pos(), okAll,
+				fmt.Sprintf("%s walks the children of a %s (arbitrary blocks) and hands them on after a type test: %s", shortName(topLevel(fn)), nt.Obj().Name(),
+					map[bool]string{true: "every child is handed to some function", false: "a child of any other kind is passed to nothing — its text is neither extracted nor rendered, and since the renderer takes over the children the walker never visits it either"}[okAll]))
+		}
+	}
+	r.Count("filtered_child_loops_over_heterogeneous_containers", n)
+}
